@@ -75,6 +75,13 @@ def generate(seed: int, tier: str) -> Dict[str, Any]:
             cp["text"] = " ".join(r.sample(E.VOCAB, 2))
             cp["vec"] = "text"
             world["episodes"].append(cp)
+    if r.chance(0.12):
+        # clusters named by small integers, 0 among them
+        names = sorted({e.get("cluster") for e in world["episodes"] if e.get("cluster") is not None}, key=str)
+        ren = {n: i for i, n in enumerate(names)}
+        for e in world["episodes"]:
+            if e.get("cluster") is not None:
+                e["cluster"] = ren[e["cluster"]]
     fams = ["t2", "t2", "t1", "t3", "t2cache", "t4cache"]
     if r.chance(0.4):
         fams.append("hybrid")
@@ -265,7 +272,15 @@ def execute(p: Dict[str, Any]) -> Dict[str, Any]:
                     if tiers == ["cluster_semantic"]:
                         # top clusters: every hit's cluster must be among the top-m clusters (by centroid cosine over the
                         # owner-visible episodes); not judged when scores tie at the boundary
-                        from clematis.memory.index import _stable_cluster_id
+                        from clematis.memory.index import _stable_cluster_id as _derived_id
+
+                        def _stable_cluster_id(e):
+                            # the cluster an episode names (0 is a name like any other); an episode that names none is a cluster
+                            # of its own
+                            cid0 = (e.get("aux") or {}).get("cluster_id")
+                            if cid0 is not None and cid0 != "":
+                                return str(cid0)
+                            return _derived_id({"id": e.get("id"), "text": e.get("text", "")})
                         owner_q = ctx.agent_id if scope == "agent" else ("world" if scope == "world" else None)
                         vis = [e for e in idx._eps if owner_q is None or e.get("owner") == owner_q]
                         by: Dict[str, List[Any]] = {}
@@ -274,6 +289,7 @@ def execute(p: Dict[str, Any]) -> Dict[str, Any]:
                         cs = []
                         for cid, items in by.items():
                             vs = [np.asarray(it["vec_full"], dtype=np.float32) for it in items if it.get("vec_full") is not None]
+                            vs = [v for v in vs if bool(np.all(np.isfinite(v)))]   # a damaged vector takes no part in its cluster's centroid
                             if vs:
                                 cs.append((_cos(qv, np.mean(np.stack(vs, axis=0), axis=0)), cid))
                         cs.sort(key=lambda t: (-t[0], t[1]))
